@@ -54,6 +54,7 @@ type Req struct {
 	Hook       string `json:"hook"`
 	Gas        int64  `json:"gas"`
 	MaxFee     int64  `json:"maxfee"`
+	Mfd        string `json:"mfd"`
 	Meta       string `json:"meta"`
 	To         string `json:"to"`
 	Full       bool   `json:"full"` // true when every field was observed (instrumented mode)
@@ -235,7 +236,7 @@ func (r *Runner) observe(evs []abci.Event) (reqs []Req, xfers []Xfer, types []st
 			reqs = append(reqs, Req{Route: "CCTP", WithCaller: len(d.DestinationCaller) != 0,
 				From: w.nameOfAddr(d.Depositor), Amt: capInt(d.Amount), Denom: den,
 				Dom: int64(d.DestinationDomain), Mint: w.nameOfBytes(d.MintRecipient), Caller: w.nameOfBytes(d.DestinationCaller),
-				Tok: "NONE", Rcp: "NONE", Hook: "NONE", Meta: "NONE", To: "NONE"})
+				Tok: "NONE", Rcp: "NONE", Hook: "NONE", Meta: "NONE", To: "NONE", Mfd: "NONE"})
 		case "hyperlane.warp.v1.EventSendRemoteTransfer":
 			m, err := sdk.ParseTypedEvent(e)
 			if err != nil {
@@ -245,7 +246,7 @@ func (r *Runner) observe(evs []abci.Event) (reqs []Req, xfers []Xfer, types []st
 			coins, err := sdk.ParseCoinsNormalized(d.Amount)
 			rq := Req{Route: "HYP", From: w.nameOfAddr(d.Sender), Dom: int64(d.DestinationDomain),
 				Tok: w.nameOfBytes(d.TokenId.Bytes()), Rcp: w.nameOfBytes(d.Recipient.Bytes()),
-				Mint: "NONE", Caller: "NONE", Hook: "?", Meta: "?", To: "NONE", Gas: -1, MaxFee: -1}
+				Mint: "NONE", Caller: "NONE", Hook: "?", Meta: "?", To: "NONE", Gas: -1, MaxFee: -1, Mfd: "?"}
 			if err == nil && len(coins) == 1 {
 				rq.Amt = capInt(coins[0].Amount)
 				rq.Denom = coins[0].Denom
